@@ -33,7 +33,7 @@ COMPONENTS = {
 }
 ASSUMPTIONS = ["IMR as a Rust pseudo-register and unknown register names are not part of the property"]
 PROBES = ["il_write_clears_ih", "alias_read_after_write", "truncation", "restart_py", "restart_rs_pack", "flag_via_f", "f_via_flag",
-          "temp_write", "snapshot_discarded", "api_cpu_runtime", "api_cpu_state", "api_regs_runtime", "api_regs_state"]
+          "temp_write", "snapshot_discarded", "api_cpu_runtime", "api_cpu_state", "api_regs_runtime", "api_regs_state", "api_machine_bundle"]
 
 NAMES = ["A", "B", "BA", "IL", "IH", "I", "X", "Y", "U", "S", "PC", "F", "FC", "FZ"]
 TEMPS = [f"TEMP{i}" for i in range(14)]
@@ -43,12 +43,12 @@ VALUES = [0, 1, 0x7F, 0x80, 0xFF, 0x100, 0x1FF, 0xFFFF, 0x10000, 0x7FFFF, 0xFFFF
 
 def batches(tier: str) -> List[Batch]:
     if tier == "quick":
-        return [Batch("hist", "py+rs-regs", 60000, 500)]
-    return [Batch("hist", "py+rs-regs", 6000000, 2000)]
+        return [Batch("hist", "py+rs-regs", 60000, 500), Batch("bundle", "py+rs-regs", 480, 10)]
+    return [Batch("hist", "py+rs-regs", 6000000, 2000), Batch("bundle", "py+rs-regs", 30000, 30)]
 
 
 def generate(batch: str, r: Rng, idx: int, tier: str) -> Dict[str, Any]:
-    n = r.choice([20, 50, 100, 200])
+    n = r.choice([20, 50, 100, 200]) if batch != "bundle" else r.choice([12, 30])
     ops: List[list] = []
     while len(ops) < n:
         k = r.weighted([("set", 10), ("get", 8), ("restart", 1), ("sweep", 1), ("peek", 1)])
@@ -77,14 +77,61 @@ def generate(batch: str, r: Rng, idx: int, tier: str) -> Dict[str, Any]:
     # which interface carries the history: the register files themselves, or the objects a machine holds them in —
     # the CPU facade (cpu.regs, snapshot_registers / apply_snapshot) and CoreRuntime's string-keyed set_reg / get_reg
     ra = r.child("api")
+    if batch == "bundle":
+        # the register file inside a whole machine; a restart is the real bundle on disk (save_snapshot -> a freshly
+        # constructed machine's load_snapshot) on both sides
+        return {"kind": "regs", "exec": "py+rs-regs", "ops": ops, "py_api": "machine", "rs_api": "bundle"}
     return {"kind": "regs", "exec": "py+rs-regs", "ops": ops, "py_api": ra.choice(["regs", "cpu"]),
             "rs_api": ra.choice(["state", "runtime"])}
+
+
+def _run_py_machine(scn: Dict[str, Any]) -> List[Any]:
+    import os
+    from pce500.emulator import PCE500Emulator
+    from sc62015.pysc62015.emulator import RegisterName
+    from .. import machine
+
+    def new_emu():
+        return PCE500Emulator(save_lcd_on_exit=False, perfetto_trace=False)
+
+    emu = new_emu()
+    regs = emu.cpu.regs
+    for nm in ("BA", "I", "X", "Y", "U", "S", "PC", "F"):
+        regs.set(RegisterName[nm], 0)
+    for i in range(14):
+        regs.set(RegisterName[f"TEMP{i}"], 0)
+    out: List[Any] = []
+    path = os.path.join(machine.scratch_dir(), f"regs-{os.getpid()}.pcsnap")
+    for op in scn["ops"]:
+        if op[0] == "peek":
+            emu.cpu.snapshot_registers()
+            out.append(None)
+        elif op[0] == "restart":
+            emu.save_snapshot(path)
+            emu = new_emu()
+            try:
+                machine.quiet_load(emu, path)
+            finally:
+                try:
+                    os.remove(path)
+                except OSError:
+                    pass
+            regs = emu.cpu.regs
+            out.append(None)
+        elif op[0] == "set":
+            regs.set(RegisterName[op[1]], op[2])
+            out.append(None)
+        else:
+            out.append(regs.get(RegisterName[op[1]]))
+    return out
 
 
 def _run_py(scn: Dict[str, Any]) -> List[Any]:
     from sc62015.pysc62015.emulator import Registers, RegisterName
     from sc62015.pysc62015.stepper import CPURegistersSnapshot
     facade = scn.get("py_api") == "cpu"
+    if scn.get("py_api") == "machine":
+        return _run_py_machine(scn)
 
     def new_cpu():
         from binja_test_mocks.eval_llil import Memory
@@ -137,7 +184,12 @@ def execute(scn: Dict[str, Any]) -> Dict[str, Any]:
             rs_ops.append(["roundtrip"] if op[1] == "pack" else ["apply"])
         else:
             rs_ops.append(op)
-    rs = host().call([["r.script", rs_ops, scn.get("rs_api", "state")]])[0]
+    extra = []
+    if scn.get("rs_api") == "bundle":
+        import os
+        from .. import machine
+        extra = [os.path.join(machine.scratch_dir(), f"regs-rs-{os.getpid()}.pcsnap")]
+    rs = host().call([["r.script", rs_ops, scn.get("rs_api", "state")] + extra])[0]
     return {"py": _run_py(scn), "rs": rs}
 
 
